@@ -103,16 +103,15 @@ theorem lex_no_overlap (C : Classes) (input : Bytes) :
 /-! ### cover -/
 
 /-- **Cover**, for every input, no guard: every byte that no token extent `[Pos.off, End.off)`
-    contains is a blank (0x20) — exactly the bytes `skipSpaces` steps over between tokens and
-    before the EOF.  (Blanks that `scanText` / `scanAccount` trim from the token *value* lie
+    contains is a blank (0x20) or a tab (0x09) — exactly the bytes `skipSpaces` steps over
+    between tokens and before the EOF.  (Blanks that `scanText` / `scanAccount` trim from the token *value* lie
     inside the token's extent and are covered.) -/
 theorem tokens_cover (C : Classes) (input : Bytes) : covered input (lexAll C input) = true := by
   rw [covered, List.all_eq_true, lexAll_eq_lexS]
   intro c hc
-  have := lexS_covered C input.length (Z.init input) (by simp [Z.init]) c (by simpa [Z.init, Z.input] using hc)
-  simp [this]
+  exact lexS_covered C input.length (Z.init input) (by simp [Z.init]) c (by simpa [Z.init, Z.input] using hc)
 
-/-- **Tiling**: the blank runs and the token extents, concatenated in stream order, are the
+/-- **Tiling**: the blank/tab runs and the token extents, concatenated in stream order, are the
     input — every byte lies in exactly one gap or in exactly one token. -/
 theorem tokens_tile (C : Classes) (input : Bytes) : pieces input 0 (lexAll C input) = input := by
   have := ordered_pieces input 0 (lexAll C input) (lexAll_ordered C input)
